@@ -238,6 +238,12 @@ class Login(Contract):
                         eq(p0[PASSWORD_IDX], r'(?i)(?:password:)|(?:passphrase for key)') is True))
             out.append(('C17:host-key-question-pattern-is-the-documented-one',
                         eq(p0[YES_IDX], '(?i)are you sure you want to continue connecting') is True))
+        # the first "terminal type?" question is answered with the terminal type (asked a second time, login() gives up)
+        tt = [i for i, e in enumerate(d) if e[0] == 'expect' and e[1] == 'index-4']
+        if tt:
+            i = tt[0]
+            out.append(('C17:terminal-type-question-is-answered',
+                        i + 1 < len(d) and d[i + 1][0] == 'send' and d[i + 1][1] is v.old.terminal_type))
         # every wait has a finite timeout: the login timeout or the instance default (never None)
         out.append(('C17:every-wait-is-bounded', all(e[2] is not None for e in expects)))
         if v.raised is None:
